@@ -354,10 +354,15 @@ pub async fn exec_dgram(a: &Args) -> Args {
             probes.push(r);
         }
     }
-    // datagrams from the peer
+    // datagrams from the peer; a[0][3] = 1: the application starts receiving only after all of them
+    // have arrived (they wait in the driver's queue while nobody is in receive_datagram)
+    let late = a[0].get(3).copied().unwrap_or(0) == 1;
     let c2 = conn.clone();
     let recv_task = tokio::spawn(async move {
         let mut got: Vec<Vec<u8>> = vec![];
+        if late {
+            tokio::time::sleep(Duration::from_millis(450)).await;
+        }
         loop {
             match tokio::time::timeout(Duration::from_millis(700), c2.receive_datagram()).await {
                 Ok(Ok(d)) => got.push(d.payload().to_vec()),
@@ -463,11 +468,21 @@ pub async fn exec_client(a: &Args) -> Args {
         keep = Some((s, r));
     }
     let (outcome, c) = client_task.await.unwrap();
+    // an established session: what a call that waits on the peer reports next (the peer may have
+    // sent more than the response, e.g. a close capsule right behind it)
+    let post = match &c {
+        Some(c) => match tokio::time::timeout(Duration::from_millis(1000), c.accept_uni()).await {
+            Ok(Ok(_)) => (vec![TAG_OK], vec![]),
+            Ok(Err(e)) => enc_conn_err(&e),
+            Err(_) => (vec![TAG_PENDING], vec![]),
+        },
+        None => (vec![9], vec![]),
+    };
     let (ch, cr) = raw_wait_closed(&conn, Duration::from_millis(400)).await;
     drop(c);
     drop(keep);
     rep.close(qvi(0), b"");
-    vec![vec![1, sid], outcome, b2a(&request_frame), ch, cr, vec![addr.port() as u64]]
+    vec![vec![1, sid], outcome, b2a(&request_frame), ch, cr, vec![addr.port() as u64], post.0, post.1]
 }
 
 pub fn oracle(f: u32, a: &Args, out: &Args) -> Option<(&'static str, String)> {
@@ -476,6 +491,57 @@ pub fn oracle(f: u32, a: &Args, out: &Args) -> Option<(&'static str, String)> {
     }
     match f {
         631 => {
+            // C16 on the implementation alone: what the endpoint emitted, against bytes composed here
+            // from the specifications' constants
+            let sid = out[0][1];
+            if out.len() >= 6 {
+                let cat = |parts: &[Vec<u8>]| -> Vec<u64> { parts.iter().flat_map(|p| p.iter().map(|b| *b as u64)).collect() };
+                if out[3] != cat(&[enc_varint(0x54), enc_varint(sid), a2b(&a[1])]) {
+                    return Some(("C16+C01", format!("session {}: unidirectional stream does not start with 0x54, the session id, then the payload: {:?}", sid, &out[3][..out[3].len().min(12)])));
+                }
+                if out[4] != cat(&[enc_varint(0x41), enc_varint(sid), a2b(&a[2])]) {
+                    return Some(("C16+C01", format!("session {}: bidirectional stream does not start with 0x41, the session id, then the payload: {:?}", sid, &out[4][..out[4].len().min(12)])));
+                }
+                if out[5] != cat(&[enc_varint(sid / 4), a2b(&a[3])]) {
+                    return Some(("C16+C03", format!("session {}: datagram is not the quarter stream id followed by the {} payload bytes: {:?}", sid, a[3].len(), &out[5][..out[5].len().min(12)])));
+                }
+                // the control stream: type 0x00, then one SETTINGS frame and nothing else
+                let c = a2b(&out[2]);
+                let mut pos = 0usize;
+                let vi = |pos: &mut usize| -> Option<u64> {
+                    let first = *c.get(*pos)?;
+                    let n = 1usize << (first >> 6);
+                    if *pos + n > c.len() { return None; }
+                    let mut v = (first & 0x3f) as u64;
+                    for i in 1..n { v = v << 8 | c[*pos + i] as u64; }
+                    *pos += n;
+                    Some(v)
+                };
+                let head = (vi(&mut pos), vi(&mut pos), vi(&mut pos));
+                let bad = |m: &str| Some(("C16", format!("control stream {:?}: {}", c, m)));
+                match head {
+                    (Some(0), Some(4), Some(l)) if pos + l as usize == c.len() => {
+                        let mut seen: Vec<(u64, u64)> = vec![];
+                        while pos < c.len() {
+                            match (vi(&mut pos), vi(&mut pos)) {
+                                (Some(id), Some(v)) => {
+                                    if seen.iter().any(|(i, _)| *i == id) { return bad("duplicate setting"); }
+                                    if (2..=5).contains(&id) { return bad("reserved HTTP/2 setting id"); }
+                                    seen.push((id, v));
+                                }
+                                _ => return bad("truncated setting"),
+                            }
+                        }
+                        let get = |id: u64| seen.iter().find(|(i, _)| *i == id).map(|(_, v)| *v);
+                        if get(0x08) != Some(1) { return bad("SETTINGS_ENABLE_CONNECT_PROTOCOL (0x08) is not 1"); }
+                        if get(0x33) != Some(1) { return bad("SETTINGS_H3_DATAGRAM (0x33) is not 1"); }
+                        if get(0x2b603742) != Some(1) && get(0xc671706a).unwrap_or(0) == 0 { return bad("WebTransport is not advertised"); }
+                        if get(0x01).unwrap_or(0) != 0 { return bad("QPACK dynamic table capacity is not zero"); }
+                        if get(0x07).unwrap_or(0) != 0 { return bad("QPACK blocked streams is not zero"); }
+                    }
+                    _ => return bad("not stream type 0x00 followed by exactly one SETTINGS frame"),
+                }
+            }
             // C01 on the implementation alone: what the application read on the streams the peer opened
             // for this session is exactly what the peer wrote after the preamble, then end-of-stream
             if out.len() >= 8 {
@@ -546,6 +612,30 @@ pub fn oracle(f: u32, a: &Args, out: &Args) -> Option<(&'static str, String)> {
             if out[4][1] != 0 {
                 return Some(("C03", "the peer received a datagram that is not quarter-stream-id + payload".into()));
             }
+            // C17: only datagrams naming the live session reach the application, each at most once
+            if out.len() >= 8 {
+                let sid = out[0][1];
+                let mut live: Vec<Vec<u64>> = vec![];
+                for d in &a[2..] {
+                    if let Some(first) = d.first() {
+                        let n = 1usize << (first >> 6);
+                        if d.len() >= n {
+                            let mut q = first & 0x3f;
+                            for x in &d[1..n] { q = q << 8 | *x; }
+                            if q <= (1 << 60) - 1 && q * 4 == sid {
+                                live.push(d[n..].to_vec());
+                            }
+                        }
+                    }
+                }
+                let cnt = out[5][0] as usize;
+                for g in &out[6..6 + cnt] {
+                    match live.iter().position(|p| p == g) {
+                        Some(p) => { live.remove(p); }
+                        None => return Some(("C17", format!("the application received a datagram {:?} that no datagram of session {} carried (foreign session or duplicate)", &g[..g.len().min(10)], sid))),
+                    }
+                }
+            }
             None
         }
         661 => {
@@ -581,6 +671,31 @@ pub fn oracle(f: u32, a: &Args, out: &Args) -> Option<(&'static str, String)> {
             for (k, v) in want {
                 if req.get(k) != Some(v) {
                     return Some(("C02", format!("request field {} is {:?}, expected {:?}", k, req.get(k), v)));
+                }
+            }
+            // C05 / C04: bytes behind the response HEADERS belong to the established session: a close
+            // capsule or a clean FIN there must be reported exactly, however the bytes were cut
+            if out.len() >= 8 && out[1].first() == Some(&0) {
+                let rb = a2b(&a[1]);
+                let mut r: &[u8] = &rb;
+                if let Ok(Some(fr)) = Frame::read(&mut r) {
+                    if matches!(fr.kind(), wtransport::proto::frame::FrameKind::Headers) {
+                        let rest = r.to_vec();
+                        let mode = match a[2][0] { 0 => 0, 1 => 1, _ => 3 };
+                        match crate::suites::session::session_meaning(mode, &rest) {
+                            Some(Ok((code, reason))) => {
+                                if out[6] != vec![1, code] || a2b(&out[7]) != reason {
+                                    return Some(("C05+C04", format!("after the response the peer closed the session with ({}, {:?}) (response cut at {}); the client reported {:?} {:?}", code, String::from_utf8_lossy(&reason), a[0][1], out[6], out[7])));
+                                }
+                            }
+                            Some(Err(())) => {
+                                if out[6].first() == Some(&1) {
+                                    return Some(("C04", format!("protocol failure behind the response reported as an application close {:?}", out[6])));
+                                }
+                            }
+                            None => {}
+                        }
+                    }
                 }
             }
             // outcome: only for a response that is exactly one decodable HEADERS frame left open
@@ -659,7 +774,15 @@ pub fn generate(rng: &mut Rng, thorough: bool, which: &str) -> Vec<Case> {
             args.push(vec![0x80, 0, 0, 0, 8]);           // live, 4-byte qid
             args.push(vec![0]);                          // live, empty payload
             args.push(vec![0x3f, 1]);                    // foreign session 252
-            cs.push(Case::new(651, args, "peer-datagrams"));
+            cs.push(Case::new(651, args.clone(), "peer-datagrams"));
+            // the same while the application is not receiving yet; foreign first, then live
+            let mut late = vec![vec![0, 0, 1, 1], vec![]];
+            late.push(vec![1, 70, 71]);                  // foreign session 4
+            late.push(vec![7, 72]);                      // foreign session 28
+            late.push(vec![0xcf, 0xff, 0xff, 0xff, 0xff, 0xff, 0xff, 0xff, 73]); // foreign: quarter id 2^60-1
+            late.push(vec![0, 1, 2, 3]);                 // live
+            late.push(vec![0, 9]);                       // live
+            cs.push(Case::new(651, late, "peer-datagrams-queued"));
             for bad in [vec![], vec![0x40u64], vec![0xd0, 0, 0, 0, 0, 0, 0, 0, 1]] {
                 cs.push(Case::new(651, vec![vec![0, 0, 0], vec![], bad], "invalid-datagram"));
             }
@@ -683,6 +806,19 @@ pub fn generate(rng: &mut Rng, thorough: bool, which: &str) -> Vec<Case> {
             for cut in 1..r200.len() {
                 cs.push(Case::new(661, vec![vec![0, cut as u64], b2a(&r200), vec![2]], "response-cut"));
             }
+            // the response and a close capsule behind it, in one piece and cut everywhere (C05, C04)
+            let mut rc = response_bytes("200", &[]);
+            let hl = rc.len();
+            rc.extend(raw_frame(0, &crate::suites::session::close_capsule(7, b"bye")));
+            let cuts: Vec<usize> = if thorough { (0..rc.len()).collect() } else { vec![0, 1, hl / 2, hl - 1, hl, hl + 1, hl + 3, rc.len() - 1] };
+            for cut in cuts {
+                for end in [0u64, 2] {
+                    cs.push(Case::new(661, vec![vec![0, cut as u64], b2a(&rc), vec![end]], "response-then-close-capsule"));
+                }
+            }
+            let mut rg = response_bytes("200", &[]);
+            rg.extend(raw_frame(0x21, &[1, 2, 3]));
+            cs.push(Case::new(661, vec![vec![0, 0], b2a(&rg), vec![0]], "response-grease-then-fin"));
             // wrong first frame, undecodable section, missing status, stream ends
             cs.push(Case::new(661, vec![vec![0, 0], b2a(&raw_frame(0, &[1, 2])), vec![2]], "data-first"));
             cs.push(Case::new(661, vec![vec![0, 0], b2a(&raw_frame(4, &[])), vec![2]], "settings-first"));
